@@ -69,25 +69,26 @@ def run(ctx, res):
     rng = ctx.rng
     # 1. exhaustive small profiles (quick: <= 3 candidates x <= 4 ballots, every reported winner, alternating
     #    difficulty function; thorough: both functions, and 4 candidates x <= 3 ballots)
-    ex = R.exhaustive_cases(3, 4)
-    if ctx.quick:
-        ex = [c for i, c in enumerate(ex) if (i // 2 + i) % 2 == 0]     # one of the two difficulty functions per profile/winner
-    else:
-        ex += R.exhaustive_cases(4, 2)[len(R.exhaustive_cases(3, 2)):]
-    # 2. random profiles, 2-6 candidates, 1-60 ballots
-    rnd = [R.gen_case(rng) for _ in range(ctx.n(3200, 30000))]
+    with R.untraced():
+        ex = R.exhaustive_cases(3, 4)
+        if ctx.quick:
+            ex = [c for i, c in enumerate(ex) if (i // 2 + i) % 2 == 0]     # one of the two difficulty functions per profile/winner
+        else:
+            ex += R.exhaustive_cases(4, 2)[len(R.exhaustive_cases(3, 2)):]
+        # 2. random profiles, 2-6 candidates, 1-60 ballots
+        rnd = [R.gen_case(rng) for _ in range(ctx.n(3200, 30000))]
     rp = R.replay_cases(ctx)
     if rp:                      # --replay: only the recorded case(s), re-run on the current implementation
         ex, rnd = [], rp
     cases = R.run_cases(ex) + R.run_cases(rnd, rng)
-    cr = C.run_corr(ctx.pid, "raire_ex", R.IMPORTS, "raire_case", ex, R.case_lit, "agree_c04", shard=500, show="show_c04")
+    cr = R.corr(ctx.pid, "raire_ex", R.IMPORTS, "raire_case", ex, R.case_lit, "agree_c04", shard=500, show="show_c04")
     res.corr.append(("compute_raire_assertions output vs verified check_output / possible (RaireCheck.v), exhaustive small profiles",
                      cr, R.case_json))
-    cr = C.run_corr(ctx.pid, "raire_rnd", R.IMPORTS, "raire_case", rnd, R.case_lit, "agree_c04", shard=40, show="show_c04")
+    cr = R.corr(ctx.pid, "raire_rnd", R.IMPORTS, "raire_case", rnd, R.case_lit, "agree_c04", shard=40, show="show_c04")
     res.corr.append(("compute_raire_assertions output vs verified check_output / possible (RaireCheck.v), random profiles",
                      cr, R.case_json))
     vc = vote_cases(rng, ctx.n(300, 3000))
-    cr2 = C.run_corr(ctx.pid, "votes", R.IMPORTS, "list ballot * assertion * list bool * list bool", vc, vote_lit,
+    cr2 = R.corr(ctx.pid, "votes", R.IMPORTS, "list ballot * assertion * list bool * list bool", vc, vote_lit,
                      "agree_votes", shard=250, show="show_votes")
     res.corr.append(("NEBAssertion/NENAssertion.is_vote_for_winner/loser vs Irv.vote_w/vote_l", cr2, vote_json))
     res.evaluations += len(cases) + len(vc)
@@ -95,7 +96,9 @@ def run(ctx, res):
     # 3. oracle on the implementation alone (brute force over all n! orders; n <= 5 for the emptiness search)
     for c in cases:
         res.oracle_runs += 1
-        for what in R.oracle_c04(c, want_brute=c["n"] <= 5):
+        with R.untraced():
+            whats = R.oracle_c04(c, want_brute=c["n"] <= 5)
+        for what in whats:
             res.oracle_violations.append({"what": what, "input": R.case_json(c), "observed": C.jsonable(c["impl"]["out"]),
                                           "signature": f"C04:{what}"})
         out = c["impl"]["out"]
